@@ -314,6 +314,15 @@ def run(chk, repo):
             if isinstance(m, ast.Call) and unparse(m.func) == "mix_dict" and [unparse(a) for a in m.args] == ["kwparams", new_kw]:
                 md = [n for n in ast.walk(arm[0]) if isinstance(n, ast.Assign) and unparse(n.targets[0]) == "mix_dict"]
                 ok = len(md) == 1 and unparse(md[0].value) == "lambda *dicts: dict(cfi((iteritems(d) for d in dicts)))"
+                if len(md) == 1 and not ok and isinstance(md[0].value, ast.Lambda) and md[0].value.args.vararg is not None \
+                        and isinstance(md[0].value.body, ast.DictComp) and len(md[0].value.body.generators) == 2:
+                    # {k: v for d in dicts for k, v in d.items()}: the dictionaries in the order given, a later one wins
+                    dc_, va_ = md[0].value.body, md[0].value.args.vararg.arg
+                    g0_, g1_ = dc_.generators
+                    ok = unparse(g0_.iter) == va_ and not g0_.ifs and not g1_.ifs and isinstance(g0_.target, ast.Name) \
+                        and unparse(g1_.iter) in ("%s.items()" % g0_.target.id, "iteritems(%s)" % g0_.target.id) \
+                        and isinstance(g1_.target, ast.Tuple) and len(g1_.target.elts) == 2 \
+                        and [unparse(dc_.key), unparse(dc_.value)] == [unparse(t_) for t_ in g1_.target.elts]
                 mdef = [n for n in ast.walk(arm[0]) if isinstance(n, FuncTypes) and n.name == "mix_dict"]
                 if not md and len(mdef) == 1 and mdef[0].args.vararg is not None:
                     # def mix_dict(*dicts): r = {} ; for d in dicts: (r.update(d) | for k, v in items(d): r[k] = v) ; return r
